@@ -60,6 +60,22 @@ Fixpoint read_head (fuel : nat) (buf : list Z) (cap : Z) (tr : list tev) : hres 
         end
   end.
 
+(* the capacity the handshake buffer ends up with (it is kept for the next handshake on the same stream) *)
+Fixpoint read_cap (fuel : nat) (buf : list Z) (cap : Z) (tr : list tev) : Z :=
+  match fuel with
+  | O => cap
+  | S f =>
+      if (zlen buf =? cap) && (hs_limit <=? cap) then cap
+      else
+        let cap1 := if zlen buf =? cap then 2 * cap else cap in
+        let '(d, err, tr1) := tread (cap1 - zlen buf) tr in
+        let buf1 := buf ++ d in
+        match find_end buf1 0 with
+        | Some _ => cap1
+        | None => if err =? 0 then read_cap f buf1 cap1 tr1 else cap1
+        end
+  end.
+
 (* ---- the response head *)
 Fixpoint split_lines (l : list Z) (cur : list Z) : list (list Z) :=     (* lines end with CR LF (a bare LF also ends one) *)
   match l with
@@ -157,22 +173,25 @@ Definition hs_verdict (head : list Z) (expected : list Z) : Z :=
 (* ---- upgrade and the stream state *)
 Record hstream : Type := mkhs {
   h_state : Z;                 (* 0 handshake, 1 active, 5 terminated (the numbering of StreamState) *)
-  h_src : list Z               (* unread bytes handed to the frame decoder *)
+  h_src : list Z;              (* unread bytes handed to the frame decoder *)
+  h_cap : Z                    (* capacity of the handshake buffer: it only grows, and the next handshake starts with it *)
 }.
 
 Definition hs_fuel : nat := 200.
 
 (* Handshake / AsyncHandshake after the request has been written: reset, read, parse, decide *)
 Definition handshake (s : hstream) (tr : list tev) (expected : list Z) : hstream * Z * list tev :=
-  match read_head hs_fuel [] hs_buffer_size tr with
+  let cap0 := Z.max hs_buffer_size (h_cap s) in
+  let cap1 := read_cap hs_fuel [] cap0 tr in
+  match read_head hs_fuel [] cap0 tr with
   | HDone buf e tr1 =>
       let v := hs_verdict (ztake e buf) expected in
       (* the bytes after the head were already given to the decoder when the hs_verdict is computed *)
-      if v =? 0 then (mkhs 1 (zdrop e buf), 0, tr1)
-      else if v =? 3 then (mkhs 5 [], v, tr1)          (* the parser failed: upgrade returns before the hand-over *)
-      else (mkhs 5 (zdrop e buf), v, tr1)
-  | HFail c tr1 => (mkhs 5 [], c, tr1)
-  | HFuel => (mkhs 5 [], 9, tr)
+      if v =? 0 then (mkhs 1 (zdrop e buf) cap1, 0, tr1)
+      else if v =? 3 then (mkhs 5 [] cap1, v, tr1)          (* the parser failed: upgrade returns before the hand-over *)
+      else (mkhs 5 (zdrop e buf) cap1, v, tr1)
+  | HFail c tr1 => (mkhs 5 [] cap1, c, tr1)
+  | HFuel => (mkhs 5 [] cap1, 9, tr)
   end.
 
-Definition hs_init : hstream := mkhs 0 [].
+Definition hs_init : hstream := mkhs 0 [] hs_buffer_size.
